@@ -1,263 +1,15 @@
 //! Conversation runner: a real `tiny_http::Server` on the in-memory network, scripted
 //! clients, an application program, and the observation the oracles judge.
 
-use crate::infra::{esc, esc_short, unesc};
+pub use crate::scenario::*;
+use crate::infra::esc_short;
 use serde_json::{json, Value};
-use std::io::{Read, Write};
-use std::net::SocketAddr;
 use std::sync::{Arc, Mutex};
 use std::time::Duration;
 use tiny_http::verif_rt::core::{RunCfg, RunResult};
-use tiny_http::verif_rt::net::{ClientEnd, ConnectOpts, CutKind, MemAddr, MemListener, PeerKind};
+use tiny_http::verif_rt::net::{self, ClientEnd, ConnectOpts, MemAddr, MemListener, PeerKind};
 use tiny_http::verif_rt::{ctl, thread};
-use tiny_http::{Header, Listener, ListenAddr, Request, Response, Server, StatusCode};
-
-// ------------------------------------------------------------------------- scenario
-
-#[derive(Clone, Debug, PartialEq)]
-pub enum Step {
-    /// one segment: the server's next read returns exactly these bytes
-    Send(Vec<u8>),
-    /// wait until nothing can run any more
-    Settle,
-    CloseWrite,
-    Close,
-    Reset,
-    /// collect what the server wrote so far
-    Drain,
-    SleepMs(u64),
-    /// reactive client: if an interim 100 response has been received send the bytes,
-    /// otherwise give up and close the sending side
-    SendIfContinue(Vec<u8>),
-    /// open the connection now (connections are otherwise opened at their first step)
-    Connect,
-    /// deferred application: handle the stashed requests now
-    AppGo,
-}
-
-#[derive(Clone, Debug, PartialEq)]
-pub struct ConnSpec {
-    pub unnamed_peer: bool,
-    pub capacity: Option<usize>,
-    pub cut: Option<(u64, CutKind)>,
-}
-
-impl Default for ConnSpec {
-    fn default() -> ConnSpec {
-        ConnSpec {
-            unnamed_peer: false,
-            capacity: None,
-            cut: None,
-        }
-    }
-}
-
-#[derive(Clone, Debug, PartialEq)]
-pub enum ReadPlan {
-    /// do not touch the body
-    None,
-    /// read with the given buffer sizes (cycled) until `limit` bytes were obtained or
-    /// end-of-stream, then `extra` more reads
-    Sizes {
-        sizes: Vec<usize>,
-        limit: Option<usize>,
-        extra: usize,
-        as_reader_calls: usize,
-    },
-    ReadToEnd,
-}
-
-impl ReadPlan {
-    pub fn all(size: usize) -> ReadPlan {
-        ReadPlan::Sizes {
-            sizes: vec![size],
-            limit: None,
-            extra: 1,
-            as_reader_calls: 1,
-        }
-    }
-    pub fn part(size: usize, limit: usize) -> ReadPlan {
-        ReadPlan::Sizes {
-            sizes: vec![size],
-            limit: Some(limit),
-            extra: 0,
-            as_reader_calls: 1,
-        }
-    }
-}
-
-#[derive(Clone, Debug, PartialEq)]
-pub struct RespSpec {
-    pub status: u16,
-    pub body_len: usize,
-    pub declared: bool,
-    pub threshold: Option<usize>,
-}
-
-impl RespSpec {
-    pub fn ok(body_len: usize) -> RespSpec {
-        RespSpec {
-            status: 200,
-            body_len,
-            declared: true,
-            threshold: None,
-        }
-    }
-}
-
-#[derive(Clone, Debug, PartialEq)]
-pub enum Finish {
-    Respond(RespSpec),
-    /// `into_writer`, then the parts with optional flush after each, then drop
-    Writer { parts: Vec<Vec<u8>>, flush: bool },
-    /// `upgrade`, read everything the client still sends, echo `n` marker bytes, drop
-    Upgrade,
-    Drop,
-    /// a handler thread panics while holding the request
-    Panic,
-}
-
-#[derive(Clone, Debug, PartialEq)]
-pub struct ReqPlan {
-    pub read: ReadPlan,
-    pub finish: Finish,
-}
-
-impl ReqPlan {
-    pub fn simple() -> ReqPlan {
-        ReqPlan {
-            read: ReadPlan::all(4096),
-            finish: Finish::Respond(RespSpec::ok(2)),
-        }
-    }
-}
-
-#[derive(Clone, Copy, Debug, PartialEq)]
-pub enum RecvStyle {
-    Recv,
-    RecvTimeout(u64),
-    Iter,
-}
-
-#[derive(Clone, Debug, PartialEq)]
-pub struct AppProgram {
-    /// plan for the i-th delivered request; the last one repeats
-    pub plans: Vec<ReqPlan>,
-    pub recv: RecvStyle,
-    /// stash requests until `Step::AppGo`, then handle them in arrival order
-    pub deferred: bool,
-    /// every request is handled on a thread of its own
-    pub thread_per_request: bool,
-}
-
-impl AppProgram {
-    pub fn simple() -> AppProgram {
-        AppProgram {
-            plans: vec![ReqPlan::simple()],
-            recv: RecvStyle::Recv,
-            deferred: false,
-            thread_per_request: false,
-        }
-    }
-    pub fn uniform(p: ReqPlan) -> AppProgram {
-        AppProgram {
-            plans: vec![p],
-            recv: RecvStyle::Recv,
-            deferred: false,
-            thread_per_request: false,
-        }
-    }
-    pub fn with_plans(plans: Vec<ReqPlan>) -> AppProgram {
-        AppProgram {
-            plans,
-            recv: RecvStyle::Recv,
-            deferred: false,
-            thread_per_request: false,
-        }
-    }
-}
-
-#[derive(Clone, Debug, PartialEq)]
-pub struct Scenario {
-    pub conns: Vec<ConnSpec>,
-    pub script: Vec<(usize, Step)>,
-    pub app: AppProgram,
-    /// after the script: open one more connection, send a GET and expect an answer
-    pub probe_after: bool,
-    /// let 6 s of virtual time pass after shutdown so that surplus workers retire
-    pub idle_after: bool,
-}
-
-impl Scenario {
-    /// One connection; every segment is followed by `Settle`.
-    pub fn one_conn(segments: Vec<Vec<u8>>, app: AppProgram) -> Scenario {
-        let mut script = Vec::new();
-        for s in segments {
-            script.push((0, Step::Send(s)));
-            script.push((0, Step::Settle));
-        }
-        Scenario {
-            conns: vec![ConnSpec::default()],
-            script,
-            app,
-            probe_after: false,
-            idle_after: false,
-        }
-    }
-}
-
-// ------------------------------------------------------------------------- observation
-
-#[derive(Clone, Debug, Default, PartialEq)]
-pub struct ReqObs {
-    pub conn: Option<usize>,
-    pub method: String,
-    pub url: String,
-    pub version: (u8, u8),
-    pub headers: Vec<(String, String)>,
-    pub body: Vec<u8>,
-    pub reads: usize,
-    pub touched_body: bool,
-    pub eof_seen: bool,
-    pub eof_sticky: bool,
-    pub body_length: Option<usize>,
-    pub remote_addr: Option<String>,
-    pub read_error: Option<String>,
-    pub finish: String,
-}
-
-#[derive(Clone, Debug, Default, PartialEq)]
-pub struct ConnObs {
-    pub connected: bool,
-    pub received: Vec<u8>,
-    pub segments: Vec<usize>,
-    pub eof: bool,
-    pub reset: bool,
-    pub server_consumed: u64,
-    pub sent: u64,
-    /// the bytes the client actually sent (a reactive client may withhold some)
-    pub sent_bytes: Vec<u8>,
-    /// a reactive client gave up waiting for `100 Continue` and closed its sending side
-    pub gave_up: bool,
-    /// state when the script had finished (before the runner's orderly shutdown)
-    pub eof_at_script_end: bool,
-    pub received_at_script_end: usize,
-}
-
-#[derive(Clone, Debug, Default)]
-pub struct Obs {
-    pub reqs: Vec<ReqObs>,
-    pub conns: Vec<ConnObs>,
-    pub recv_errors: Vec<String>,
-    pub events: Vec<String>,
-    pub probe_ok: Option<bool>,
-    pub script_done: bool,
-    pub live_threads_before_drop: usize,
-    pub live_threads_end: usize,
-    pub refused_after_drop: Option<bool>,
-}
-
-pub type SharedObs = Arc<Mutex<Obs>>;
+use tiny_http::{Listener, ListenAddr, Server};
 
 fn ev(o: &SharedObs, s: String) {
     o.lock().unwrap().events.push(s);
@@ -283,9 +35,6 @@ pub fn start_server() -> Srv {
     }
 }
 
-pub fn peer_addr_for(conn: usize) -> SocketAddr {
-    SocketAddr::from(([127, 0, 0, 1], 40000 + conn as u16))
-}
 
 pub fn connect(addr: &MemAddr, idx: usize, spec: &ConnSpec) -> std::io::Result<ClientEnd> {
     ClientEnd::connect(
@@ -297,307 +46,17 @@ pub fn connect(addr: &MemAddr, idx: usize, spec: &ConnSpec) -> std::io::Result<C
                 PeerKind::Ip(peer_addr_for(idx))
             },
             s2c_capacity: spec.capacity,
-            s2c_cut: spec.cut,
+            s2c_cut: spec.cut.map(|(n, k)| {
+                (
+                    n,
+                    match k {
+                        CutKind::Close => net::CutKind::Close,
+                        CutKind::Reset => net::CutKind::Reset,
+                    },
+                )
+            }),
         },
     )
-}
-
-// ------------------------------------------------------------------------- request handling
-
-pub fn body_for(id: usize, len: usize) -> Vec<u8> {
-    let tag = format!("<{}>", id);
-    let t = tag.as_bytes();
-    (0..len).map(|i| t[i % t.len()]).collect()
-}
-
-pub fn describe_request(rq: &Request) -> ReqObs {
-    let ra = rq.remote_addr().cloned();
-    ReqObs {
-        conn: ra.and_then(|a| {
-            let p = a.port();
-            if p >= 40000 {
-                Some((p - 40000) as usize)
-            } else {
-                None
-            }
-        }),
-        method: rq.method().as_str().to_string(),
-        url: rq.url().to_string(),
-        version: (rq.http_version().0, rq.http_version().1),
-        headers: rq
-            .headers()
-            .iter()
-            .map(|h| (h.field.as_str().as_str().to_string(), h.value.as_str().to_string()))
-            .collect(),
-        body_length: rq.body_length(),
-        remote_addr: ra.map(|a| a.to_string()),
-        ..ReqObs::default()
-    }
-}
-
-pub fn read_body(rq: &mut Request, plan: &ReadPlan, ob: &mut ReqObs) {
-    match plan {
-        ReadPlan::None => (),
-        ReadPlan::ReadToEnd => {
-            ob.touched_body = true;
-            let mut v = Vec::new();
-            match rq.as_reader().read_to_end(&mut v) {
-                Ok(_) => {
-                    ob.eof_seen = true;
-                    ob.eof_sticky = true;
-                }
-                Err(e) => ob.read_error = Some(format!("{:?}", e.kind())),
-            }
-            ob.body = v;
-        }
-        ReadPlan::Sizes {
-            sizes,
-            limit,
-            extra,
-            as_reader_calls,
-        } => {
-            ob.touched_body = true;
-            for _ in 1..*as_reader_calls {
-                let _ = rq.as_reader();
-            }
-            let mut buf = vec![0u8; sizes.iter().copied().max().unwrap_or(1).max(1)];
-            let mut i = 0;
-            loop {
-                if let Some(l) = limit {
-                    if ob.body.len() >= *l {
-                        break;
-                    }
-                }
-                let mut want = sizes[i % sizes.len()].max(1);
-                if let Some(l) = limit {
-                    want = want.min(*l - ob.body.len());
-                }
-                i += 1;
-                ob.reads += 1;
-                match rq.as_reader().read(&mut buf[..want]) {
-                    Ok(0) => {
-                        ob.eof_seen = true;
-                        break;
-                    }
-                    Ok(n) => ob.body.extend_from_slice(&buf[..n]),
-                    Err(e) => {
-                        ob.read_error = Some(format!("{:?}", e.kind()));
-                        break;
-                    }
-                }
-            }
-            if ob.eof_seen {
-                ob.eof_sticky = true;
-                for _ in 0..*extra {
-                    match rq.as_reader().read(&mut buf) {
-                        Ok(0) => (),
-                        _ => ob.eof_sticky = false,
-                    }
-                }
-            }
-        }
-    }
-}
-
-pub fn build_response(id: usize, spec: &RespSpec) -> Response<std::io::Cursor<Vec<u8>>> {
-    let body = body_for(id, spec.body_len);
-    let mut r = Response::new(
-        StatusCode(spec.status),
-        vec![Header::from_bytes(&b"X-Id"[..], id.to_string().as_bytes()).unwrap()],
-        std::io::Cursor::new(body),
-        if spec.declared { Some(spec.body_len) } else { None },
-        None,
-    );
-    if let Some(t) = spec.threshold {
-        r = r.with_chunked_threshold(t);
-    }
-    r
-}
-
-/// A complete raw response carrying the request id, cut into `n` parts.
-pub fn raw_response_parts(id: usize, body_len: usize, n: usize) -> Vec<Vec<u8>> {
-    let body = body_for(id, body_len);
-    let mut msg = format!(
-        "HTTP/1.1 200 OK\r\nX-Id: {}\r\nX-Raw: 1\r\nContent-Length: {}\r\n\r\n",
-        id, body_len
-    )
-    .into_bytes();
-    msg.extend_from_slice(&body);
-    if n <= 1 {
-        return vec![msg];
-    }
-    let mut parts = Vec::new();
-    let step = (msg.len() + n - 1) / n;
-    for c in msg.chunks(step.max(1)) {
-        parts.push(c.to_vec());
-    }
-    parts
-}
-
-pub fn finish_request(rq: Request, id: usize, fin: &Finish, ob: &mut ReqObs) {
-    match fin {
-        Finish::Respond(spec) => {
-            let r = rq.respond(build_response(id, spec));
-            ob.finish = match r {
-                Ok(()) => "respond:ok".into(),
-                Err(e) => format!("respond:err:{:?}", e.kind()),
-            };
-        }
-        Finish::Writer { parts, flush } => {
-            let mut w = rq.into_writer();
-            let mut res = "writer:ok".to_string();
-            for p in parts {
-                if let Err(e) = w.write_all(p) {
-                    res = format!("writer:err:{:?}", e.kind());
-                    break;
-                }
-                if *flush {
-                    if let Err(e) = w.flush() {
-                        res = format!("writer:err:{:?}", e.kind());
-                        break;
-                    }
-                }
-            }
-            drop(w);
-            ob.finish = res;
-        }
-        Finish::Upgrade => {
-            let mut s = rq.upgrade("verif", Response::empty(101));
-            let mut rest = Vec::new();
-            let r = s.read_to_end(&mut rest);
-            ob.body.extend_from_slice(&rest);
-            let _ = s.write_all(format!("UP{}:{}", id, rest.len()).as_bytes());
-            let _ = s.flush();
-            drop(s);
-            ob.finish = format!("upgrade:{}", if r.is_ok() { "ok" } else { "err" });
-        }
-        Finish::Drop => {
-            drop(rq);
-            ob.finish = "drop".into();
-        }
-        Finish::Panic => {
-            let h = thread::spawn_named(Some("panicking-handler".into()), move || {
-                let _rq = rq;
-                panic!("verif: handler panics while holding the request");
-            });
-            let _ = h.join();
-            ob.finish = "panic".into();
-        }
-    }
-}
-
-pub fn handle_request(mut rq: Request, id: usize, plan: &ReqPlan, obs: &SharedObs) {
-    if rq.url() == "/probe" {
-        // the runner's own liveness probe (see `probe`): answered, not part of the observation
-        let _ = rq.respond(Response::from_string("alive"));
-        return;
-    }
-    let mut ob = describe_request(&rq);
-    read_body(&mut rq, &plan.read, &mut ob);
-    // record before finishing: finishing may block for ever
-    let slot = {
-        let mut o = obs.lock().unwrap();
-        o.reqs.push(ob.clone());
-        o.reqs.len() - 1
-    };
-    finish_request(rq, id, &plan.finish, &mut ob);
-    obs.lock().unwrap().reqs[slot] = ob;
-}
-
-fn plan_for(app: &AppProgram, i: usize) -> ReqPlan {
-    app.plans[i.min(app.plans.len() - 1)].clone()
-}
-
-/// The application thread: receives requests and handles them per program until
-/// `unblock` is called.
-pub fn app_thread(server: Arc<Server>, app: AppProgram, obs: SharedObs) {
-    let mut next_id = 0usize;
-    let mut stash: Vec<Request> = Vec::new();
-    let mut deferred = app.deferred;
-    let mut handlers = Vec::new();
-    loop {
-        let got: Result<Option<Request>, String> = match app.recv {
-            RecvStyle::Recv => server.recv().map(Some).map_err(|e| e.to_string()),
-            RecvStyle::Iter => match server.incoming_requests().next() {
-                Some(r) => Ok(Some(r)),
-                None => Err("iterator ended".into()),
-            },
-            RecvStyle::RecvTimeout(ms) => server
-                .recv_timeout(Duration::from_millis(ms))
-                .map_err(|e| e.to_string()),
-        };
-        match got {
-            Ok(Some(rq)) => {
-                if deferred {
-                    // the request is looked at when it arrives, handled later
-                    stash.push(rq);
-                } else if app.thread_per_request {
-                    let plan = plan_for(&app, next_id);
-                    let (o, id) = (obs.clone(), next_id);
-                    handlers.push(thread::spawn_named(Some(format!("handler{}", id)), move || {
-                        handle_request_slot(rq, id, &plan, &o)
-                    }));
-                    next_id += 1;
-                } else {
-                    let plan = plan_for(&app, next_id);
-                    handle_request(rq, next_id, &plan, &obs);
-                    next_id += 1;
-                }
-            }
-            Ok(None) => {
-                // recv_timeout expired: used as the "go"/"stop" signal as well
-                if deferred {
-                    deferred = false;
-                    for rq in stash.drain(..) {
-                        let plan = plan_for(&app, next_id);
-                        handle_request(rq, next_id, &plan, &obs);
-                        next_id += 1;
-                    }
-                } else {
-                    break;
-                }
-            }
-            Err(e) => {
-                if deferred {
-                    deferred = false;
-                    for rq in stash.drain(..) {
-                        let plan = plan_for(&app, next_id);
-                        handle_request(rq, next_id, &plan, &obs);
-                        next_id += 1;
-                    }
-                } else {
-                    if e != "thread unblocked" && e != "iterator ended" {
-                        obs.lock().unwrap().recv_errors.push(e);
-                    }
-                    break;
-                }
-            }
-        }
-    }
-    for h in handlers {
-        let _ = h.join();
-    }
-}
-
-/// Like `handle_request`, but the observation is stored at index `id` (handler threads
-/// finish in any order; the oracle wants delivery order).
-pub fn handle_request_slot(mut rq: Request, id: usize, plan: &ReqPlan, obs: &SharedObs) {
-    if rq.url() == "/probe" {
-        let _ = rq.respond(Response::from_string("alive"));
-        return;
-    }
-    let mut ob = describe_request(&rq);
-    {
-        let mut o = obs.lock().unwrap();
-        while o.reqs.len() <= id {
-            o.reqs.push(ReqObs::default());
-        }
-        o.reqs[id] = ob.clone();
-    }
-    read_body(&mut rq, &plan.read, &mut ob);
-    obs.lock().unwrap().reqs[id] = ob.clone();
-    finish_request(rq, id, &plan.finish, &mut ob);
-    obs.lock().unwrap().reqs[id] = ob;
 }
 
 // ------------------------------------------------------------------------- the run
@@ -771,191 +230,6 @@ pub fn run_scenario(sc: &Scenario, rc: &RunCfg) -> (Obs, RunResult) {
     (o, res)
 }
 
-// ------------------------------------------------------------------------- JSON
-
-pub fn step_json(s: &Step) -> Value {
-    match s {
-        Step::Send(b) => json!({"send": esc(b)}),
-        Step::Settle => json!("settle"),
-        Step::CloseWrite => json!("close_write"),
-        Step::Close => json!("close"),
-        Step::Reset => json!("reset"),
-        Step::Drain => json!("drain"),
-        Step::SleepMs(ms) => json!({"sleep_ms": ms}),
-        Step::SendIfContinue(b) => json!({"send_if_continue": esc(b)}),
-        Step::Connect => json!("connect"),
-        Step::AppGo => json!("app_go"),
-    }
-}
-
-pub fn step_from_json(v: &Value) -> Step {
-    if let Some(s) = v.as_str() {
-        return match s {
-            "settle" => Step::Settle,
-            "close_write" => Step::CloseWrite,
-            "close" => Step::Close,
-            "reset" => Step::Reset,
-            "drain" => Step::Drain,
-            "connect" => Step::Connect,
-            _ => Step::AppGo,
-        };
-    }
-    if let Some(b) = v["send"].as_str() {
-        return Step::Send(unesc(b));
-    }
-    if let Some(b) = v["send_if_continue"].as_str() {
-        return Step::SendIfContinue(unesc(b));
-    }
-    Step::SleepMs(v["sleep_ms"].as_u64().unwrap_or(0))
-}
-
-pub fn read_plan_json(p: &ReadPlan) -> Value {
-    match p {
-        ReadPlan::None => json!("none"),
-        ReadPlan::ReadToEnd => json!("read_to_end"),
-        ReadPlan::Sizes {
-            sizes,
-            limit,
-            extra,
-            as_reader_calls,
-        } => json!({"sizes": sizes, "limit": limit, "extra": extra, "as_reader_calls": as_reader_calls}),
-    }
-}
-
-pub fn read_plan_from_json(v: &Value) -> ReadPlan {
-    match v.as_str() {
-        Some("none") => ReadPlan::None,
-        Some("read_to_end") => ReadPlan::ReadToEnd,
-        _ => ReadPlan::Sizes {
-            sizes: v["sizes"]
-                .as_array()
-                .map(|a| a.iter().map(|x| x.as_u64().unwrap_or(1) as usize).collect())
-                .unwrap_or_else(|| vec![4096]),
-            limit: v["limit"].as_u64().map(|x| x as usize),
-            extra: v["extra"].as_u64().unwrap_or(0) as usize,
-            as_reader_calls: v["as_reader_calls"].as_u64().unwrap_or(1) as usize,
-        },
-    }
-}
-
-pub fn finish_json(f: &Finish) -> Value {
-    match f {
-        Finish::Respond(s) => json!({"respond": {"status": s.status, "body_len": s.body_len, "declared": s.declared, "threshold": s.threshold.map(|t| t.to_string())}}),
-        Finish::Writer { parts, flush } => json!({"writer": {"parts": parts.iter().map(|p| esc(p)).collect::<Vec<_>>(), "flush": flush}}),
-        Finish::Upgrade => json!("upgrade"),
-        Finish::Drop => json!("drop"),
-        Finish::Panic => json!("panic"),
-    }
-}
-
-pub fn finish_from_json(v: &Value) -> Finish {
-    match v.as_str() {
-        Some("upgrade") => return Finish::Upgrade,
-        Some("drop") => return Finish::Drop,
-        Some("panic") => return Finish::Panic,
-        _ => (),
-    }
-    if let Some(w) = v.get("writer") {
-        return Finish::Writer {
-            parts: w["parts"]
-                .as_array()
-                .map(|a| a.iter().map(|p| unesc(p.as_str().unwrap_or(""))).collect())
-                .unwrap_or_default(),
-            flush: w["flush"].as_bool().unwrap_or(false),
-        };
-    }
-    let r = &v["respond"];
-    Finish::Respond(RespSpec {
-        status: r["status"].as_u64().unwrap_or(200) as u16,
-        body_len: r["body_len"].as_u64().unwrap_or(0) as usize,
-        declared: r["declared"].as_bool().unwrap_or(true),
-        threshold: r["threshold"].as_str().and_then(|s| s.parse().ok()),
-    })
-}
-
-pub fn scenario_json(sc: &Scenario) -> Value {
-    json!({
-        "conns": sc.conns.iter().map(|c| json!({
-            "unnamed_peer": c.unnamed_peer, "capacity": c.capacity,
-            "cut": c.cut.map(|(n, k)| json!({"after": n, "kind": if k == CutKind::Close { "close" } else { "reset" }})),
-        })).collect::<Vec<_>>(),
-        "script": sc.script.iter().map(|(c, s)| json!([c, step_json(s)])).collect::<Vec<_>>(),
-        "app": {
-            "plans": sc.app.plans.iter().map(|p| json!({"read": read_plan_json(&p.read), "finish": finish_json(&p.finish)})).collect::<Vec<_>>(),
-            "recv": match sc.app.recv { RecvStyle::Recv => json!("recv"), RecvStyle::Iter => json!("iter"), RecvStyle::RecvTimeout(ms) => json!({"recv_timeout_ms": ms}) },
-            "deferred": sc.app.deferred,
-            "thread_per_request": sc.app.thread_per_request,
-        },
-        "probe_after": sc.probe_after,
-        "idle_after": sc.idle_after,
-    })
-}
-
-pub fn scenario_from_json(v: &Value) -> Scenario {
-    let conns = v["conns"]
-        .as_array()
-        .map(|a| {
-            a.iter()
-                .map(|c| ConnSpec {
-                    unnamed_peer: c["unnamed_peer"].as_bool().unwrap_or(false),
-                    capacity: c["capacity"].as_u64().map(|x| x as usize),
-                    cut: c.get("cut").and_then(|k| {
-                        k["after"].as_u64().map(|n| {
-                            (
-                                n,
-                                if k["kind"].as_str() == Some("reset") {
-                                    CutKind::Reset
-                                } else {
-                                    CutKind::Close
-                                },
-                            )
-                        })
-                    }),
-                })
-                .collect()
-        })
-        .unwrap_or_else(|| vec![ConnSpec::default()]);
-    let script = v["script"]
-        .as_array()
-        .map(|a| {
-            a.iter()
-                .map(|e| (e[0].as_u64().unwrap_or(0) as usize, step_from_json(&e[1])))
-                .collect()
-        })
-        .unwrap_or_default();
-    let app = &v["app"];
-    let plans: Vec<ReqPlan> = app["plans"]
-        .as_array()
-        .map(|a| {
-            a.iter()
-                .map(|p| ReqPlan {
-                    read: read_plan_from_json(&p["read"]),
-                    finish: finish_from_json(&p["finish"]),
-                })
-                .collect()
-        })
-        .unwrap_or_else(|| vec![ReqPlan::simple()]);
-    Scenario {
-        conns,
-        script,
-        app: AppProgram {
-            plans,
-            recv: match app["recv"].as_str() {
-                Some("iter") => RecvStyle::Iter,
-                Some(_) => RecvStyle::Recv,
-                None => app["recv"]["recv_timeout_ms"]
-                    .as_u64()
-                    .map(RecvStyle::RecvTimeout)
-                    .unwrap_or(RecvStyle::Recv),
-            },
-            deferred: app["deferred"].as_bool().unwrap_or(false),
-            thread_per_request: app["thread_per_request"].as_bool().unwrap_or(false),
-        },
-        probe_after: v["probe_after"].as_bool().unwrap_or(false),
-        idle_after: v["idle_after"].as_bool().unwrap_or(false),
-    }
-}
-
 pub fn obs_json(o: &Obs, res: &RunResult) -> Value {
     json!({
         "requests_delivered": o.reqs.iter().map(|r| json!({
@@ -975,3 +249,4 @@ pub fn obs_json(o: &Obs, res: &RunResult) -> Value {
         "panics": res.panics.iter().map(|p| format!("{} [{}] at {} (lib frames: {})", p.message, p.thread_name, p.location, p.lib_frames.len())).collect::<Vec<_>>(),
     })
 }
+
